@@ -174,8 +174,19 @@ func (r *BaseOperationRepo) getDeletedOperations() (map[string]*types.Operation,
 	return operations, nil
 }
 
+// initJsonKey makes sure the key holds a JSON object. A value left by a
+// previous run of the node (its pending or deleted operations) is kept.
 func (r *BaseOperationRepo) initJsonKey(key string) error {
-	err := r.state.Set(key, []byte("{}"))
+	bz, err := r.state.Get(key)
+	if err != nil {
+		return fmt.Errorf("failed to read state: %w", err)
+	}
+
+	if len(bz) > 0 {
+		return nil
+	}
+
+	err = r.state.Set(key, []byte("{}"))
 	if err != nil {
 		return fmt.Errorf("failed to init state: %w", err)
 	}
